@@ -11,6 +11,9 @@ import (
 	"time"
 )
 
+// IsRaceBuild is set by main from sched.RaceBuild.
+var IsRaceBuild bool
+
 func VerifRoot() string {
 	if d := os.Getenv("VERIF_ROOT"); d != "" {
 		return d
@@ -213,7 +216,15 @@ func MinimiseInProcess(e Engine, v *Violation, opt RunOpt, maxExec int) *Violati
 	r.Property, r.Leg, r.Tier, r.Seed, r.Run, r.RunSeed = v.Property, v.Leg, v.Tier, v.Seed, v.Run, v.RunSeed
 	r.Tape = t.Recorded()
 	r.Minimised, r.MinExecs, r.OrigTape = true, execs, len(v.Tape)
+	if cs, ok := e.(CaseSimplifier); ok {
+		r = cs.SimplifyCase(r, opt)
+	}
 	return r
+}
+
+// CaseSimplifier is an optional structured pass over the materialised case.
+type CaseSimplifier interface {
+	SimplifyCase(v *Violation, opt RunOpt) *Violation
 }
 
 func WriteReplay(v *Violation) (string, error) {
@@ -277,8 +288,18 @@ func ReplayMain(path string) int {
 		fmt.Fprintln(os.Stderr, "replay:", err)
 		return 2
 	}
-	opt := RunOpt{Tier: v.Tier, Leg: v.Leg}
-	r, err := e.ReplayCase(v.Case, opt, nil)
+	opt := RunOpt{Tier: v.Tier, Leg: v.Leg, Params: v.Params}
+	var r *Violation
+	if strings.Contains(v.Leg, "race") {
+		if !IsRaceBuild {
+			fmt.Fprintln(os.Stderr, "replay: INFRASTRUCTURE: this replay file needs the race build of verifsim")
+			return 2
+		}
+		// the race detector kills the process that sees the race: run the case in a child
+		r, err = ExecSubprocess("", v.Property, opt, nil, v.Case)
+	} else {
+		r, err = e.ReplayCase(v.Case, opt, nil)
+	}
 	if err != nil {
 		fmt.Fprintln(os.Stderr, "replay: INFRASTRUCTURE:", err)
 		return 2
@@ -300,6 +321,28 @@ func ReplayMain(path string) int {
 	fmt.Printf("replay: a different violation class came back\n")
 	fmt.Printf("VIOLATION property=%s replay=%s\n", v.Property, path)
 	return 1
+}
+
+type SplitOut struct{ Stdout, Stderr string }
+
+// RunSelfSplit is RunSelf with stdout and stderr kept apart.
+func RunSelfSplit(bin string, env []string, args ...string) (int, SplitOut) {
+	if bin == "" {
+		bin, _ = os.Executable()
+	}
+	cmd := exec.Command(bin, args...)
+	cmd.Env = append(os.Environ(), env...)
+	var so, se strings.Builder
+	cmd.Stdout, cmd.Stderr = &so, &se
+	err := cmd.Run()
+	code := 0
+	if err != nil {
+		code = -1
+		if ee, ok := err.(*exec.ExitError); ok {
+			code = ee.ExitCode()
+		}
+	}
+	return code, SplitOut{so.String(), se.String()}
 }
 
 // RunSelf runs this binary (or bin) with args, returning exit code and output.
